@@ -27,6 +27,12 @@ CHECKS = {
         bounds=dict(quick="depth 0..5", thorough="depth 0..7"),
         assumptions=["BOOLEAN items cannot be pairwise distinct; an aperiodic pattern is used instead"],
     ),
+    "C08": dict(
+        families=lambda tier: [fam("unary", shards=4, crumbs=True), fam("binary", shards=12, crumbs=True), fam("api", shards=2)],
+        rule="all code trees up to S points over a 6-atom alphabet (int 1, 2, 11, float, name, instruction; 3 atoms for pairs): SIZE, EXTRACT, CAR, CDR, LENGTH, NTH, NULL, ATOM on every tree x every index in [-2S,2S] u {MIN,MAX}; INSERT (x every index), POSITION, CONTAINER, CONTAINS, MEMBER, =, CONS, LIST, DISCREPANCY on all pairs (t,u), SUBST on triples; by NAME through step; oracle = reference tree functions (depth-first point indexing) + the metamorphic equations of the statement (EXTRACT after INSERT, POSITION/EXTRACT, -1 iff no occurrence, DISCREPANCY symmetric and 0 on identical items, atoms conserved); the Item:: API (size, traverse, contains, container, equals, insert, substitute) checked directly",
+        bounds=dict(quick="trees <= 4 points (unary: 6 atoms; pairs: |t|<=4, |u|<=3 over 3 atoms)", thorough="trees <= 5 points"),
+        assumptions=["atoms outside the alphabet behave like those inside; NaN atoms are not explored"],
+    ),
     "C09": dict(
         families=lambda tier: [fam("vector", BOTH, shards=8, digests=True, crumbs=True)],
         rule="every BOOLVECTOR/INTVECTOR/FLOATVECTOR instruction that is not a generic stack operation or RAND, by NAME through step: all ordered pairs of a vector pool (lengths 0..N, equal and unequal, ramp / boundary / zero-containing / repeating patterns; all boolean vectors) x offsets/indices {MIN,-5..5,MAX} x scalar operands; oracle = reference row (second[j] op top[j-offset] on the overlap, clamped GET/SET, documented aggregates), identical digests in checked and release builds",
